@@ -117,8 +117,8 @@ def _first_match(needle, hay, start):
 def find(needle, hay, start=1):
     """tuple of acceptable answers.
     start < 1 -> #VALUE!;  non-empty needle: first p >= start with MID(hay, p, LEN(needle)) = needle,
-    else #VALUE! (so also for start > LEN(hay)).  Empty needle: start for start <= LEN(hay); for
-    start > LEN(hay) both `start` (MID(hay, start, 0) = "" holds) and #VALUE! (the documented
+    else #VALUE! (so also for start > LEN(hay)).  Empty needle: start for start <= LEN(hay) + 1; for
+    start > LEN(hay) + 1 both `start` (MID(hay, start, 0) = "" holds) and #VALUE! (the documented
     "start_num greater than the length") are accepted.
     Where an exact and a case-insensitive reading of '=' give different first positions, both are
     accepted (Excel's '=' on texts ignores case, FIND itself does not)."""
@@ -126,7 +126,9 @@ def find(needle, hay, start=1):
     if start < 1:
         return (VALUE,)
     if needle == '':
-        if start <= len(hay):
+        # (start = LEN(hay) + 1 is still a position of the text: MID(hay, start, 0) = "" there, and Excel itself
+        # answers start; only beyond that the statement and the documented #VALUE! part ways)
+        if start <= len(hay) + 1:
             return (start,)
         return (start, VALUE)
     exact = _first_match(needle, hay, start)
